@@ -110,8 +110,8 @@ def _kernel(ctx: Ctx) -> None:
                        ("upper_bound", "upper_bound")):
         fi = ctx.need(cls.methods.get(meth), f"QAPObjective.{meth}")
         rs = [r for r in ast.walk(fi.node) if isinstance(r, ast.Return)]
-        ok = len(rs) == 1 and ast.unparse(rs[0].value) == \
-            f"self.instance.{attr}"
+        ok = len(rs) == 1 and rs[0].value is not None and ast.unparse(
+            inline_locals(fi.node, rs[0].value)) == f"self.instance.{attr}"
         ctx.ob("D9.3", fi, rs[0] if rs else fi.node, ok,
                f"returns self.instance.{attr}" if ok else
                f"does not return the instance's {attr}",
